@@ -1,0 +1,55 @@
+//go:build verif
+
+package algo
+
+// Verification hooks (build tag `verif`): read-only access to the unexported
+// constants and tables so that they can be regenerated into the Lean model.
+
+// VerifReset restores the package globals that Init does not reset itself,
+// so that schemes can be switched within one process.
+func VerifReset() {
+	delimiterChars = "/,:;|"
+	initialCharClass = charWhite
+}
+
+func VerifConsts() map[string]int {
+	return map[string]int{
+		"scoreMatch":               scoreMatch,
+		"scoreGapStart":            scoreGapStart,
+		"scoreGapExtension":        scoreGapExtension,
+		"bonusBoundary":            bonusBoundary,
+		"bonusNonWord":             bonusNonWord,
+		"bonusCamel123":            bonusCamel123,
+		"bonusConsecutive":         bonusConsecutive,
+		"bonusFirstCharMultiplier": bonusFirstCharMultiplier,
+	}
+}
+
+func VerifSchemeGlobals() (white int, delim int, initClass int, delims string) {
+	return int(bonusBoundaryWhite), int(bonusBoundaryDelimiter), int(initialCharClass), delimiterChars
+}
+
+func VerifAsciiClasses() []int {
+	out := make([]int, len(asciiCharClasses))
+	for i, c := range asciiCharClasses {
+		out[i] = int(c)
+	}
+	return out
+}
+
+func VerifBonusMatrix() [][]int {
+	out := [][]int{}
+	for _, row := range bonusMatrix {
+		r := []int{}
+		for _, v := range row {
+			r = append(r, int(v))
+		}
+		out = append(out, r)
+	}
+	return out
+}
+
+func VerifNormalized() map[rune]rune { return normalized }
+
+func VerifCharClassOf(r rune) int { return int(charClassOf(r)) }
+func VerifWhiteChars() string     { return whiteChars }
